@@ -252,7 +252,12 @@ prod('gt', '{0} > {1}', lambda a, b: a > b)
 prod('ge', '{0} >= {1}', lambda a, b: a >= b)
 prod('startswith', '{0}.startswith({1})', lambda s, a: s.startswith(a), atomic=True, kindsens=True)
 prod('endswith', '{0}.endswith({1})', lambda s, a: s.endswith(a), atomic=True, kindsens=True)
-prod('in_str', '{0} in {1}', lambda a, s: a in s, kindsens=True)
+def _l_in_str(ev, x, env):
+    a, c = ev.value(x.a[0], env), ev.value(x.a[1], env)
+    if a is None or c is None: return ev.no_answer(env, None)    # Python raises TypeError; `not (a in b)` compiles to `a not in b`
+    if isinstance(a, GroupConcat) or isinstance(c, GroupConcat): raise Undef()
+    return a in c
+prod('in_str', '{0} in {1}', lazy=_l_in_str, kindsens=True)
 def _l_not_in_str(ev, x, env):
     a, c = ev.value(x.a[0], env), ev.value(x.a[1], env)
     if a is None or c is None: return ev.no_answer(env, None)    # Python raises TypeError; Pony answers `... OR x IS NULL`
@@ -293,8 +298,8 @@ def _l_is_none(ev, x, env): return ev.value(x.a[0], env) is None
 def _l_is_not_none(ev, x, env): return ev.value(x.a[0], env) is not None
 def _l_bool(ev, x, env): return ev.cond(x.a[0], env)
 def _l_coalesce(ev, x, env):
-    for c in x.a:
-        v = ev.value(c, env)
+    vals = [ev.value(c, env) for c in x.a]      # a function call: every argument is evaluated
+    for v in vals:
         if v is not None: return v
     return None
 def _l_between(ev, x, env):
@@ -1150,12 +1155,15 @@ def skeleton(x, kinds=False):
         return p.sym.format(*parts)
     return p.fmt.format(*parts)
 
-def value_class(v):
+FINE_STR = ('upper', 'lower', 'strip', 'lstrip', 'rstrip', 'strip_chars', 'lstrip_chars', 'rstrip_chars', 'startswith',
+            'endswith', 'in_str', 'not_in_str', 'len')
+def value_class(v, fine=True):
     if v is None: return 'None'
     if isinstance(v, bool): return 'T' if v else 'F'
     if isinstance(v, (int, float, Decimal)): return 'neg' if v < 0 else ('zero' if v == 0 else 'pos')
     if isinstance(v, str):
         if v == '': return 'empty'
+        if not fine: return 'str'
         if any(ord(c) > 127 for c in v): return 'nonascii'
         if v != v.strip(' '): return 'ws'
         if '%' in v or '_' in v: return 'wild'
@@ -1428,6 +1436,17 @@ def operand_classes(ev, x, env):
     out = []
     kids = [x] if (is_leaf(x) or is_external(x)) else [c for c in x.a if c.op not in ('var', 'ent')]
     for c in kids:
-        try: out.append(value_class(ev.value(c, Env(env.vars))))
+        try: out.append(value_class(ev.value(c, Env(env.vars)), fine=x.op in FINE_STR))
         except Undef: out.append('undef')
     return ','.join(out)
+
+
+def dead_navigation(ev, x, env):
+    """does x contain an attribute navigation through a reference that is None on this row (which
+    Python, evaluating lazily, never reaches if the row has an answer at all)?"""
+    for n in walk_scope(x):
+        if n.op == 'attr' and not is_leaf(n) and is_ent(n.a[0].t):
+            try:
+                if ev.value(n.a[0], Env(env.vars)) is None: return True
+            except Undef: pass
+    return False
